@@ -33,6 +33,10 @@ def dispatch_table():
     checked = 0
     samples = []
     classes = list(model.UNIVERSE)
+    # user-defined node classes with names of three and more words (the naming rule is per capital letter)
+    IsoDateWord = type("IsoDateWord", (type("DateWord", (T.Word,), {}),), {})
+    GeoBoundingBoxRange = type("GeoBoundingBoxRange", (T.Range,), {})
+    classes += [IsoDateWord, type("HTTPSUrlWord", (T.Word,), {}), GeoBoundingBoxRange, type("MyVeryLongOrOperation", (T.OrOperation,), {})]
     for cls, style in itertools.product(classes, ("default names", "prefix and fallback renamed")):
         mro = [c for c in cls.__mro__ if c is not object]
         prefix = "visit_" if style == "default names" else "on_"
@@ -85,6 +89,11 @@ def model_witness(cls):
     """a tiny concrete instance of a node class (for finite checks)"""
     w = T.Word("w")
     n = cls.__name__
+    if n not in model.CLASS_BY_NAME:        # a user-defined subclass: built like its nearest luqum base
+        base = next(b for b in cls.__mro__ if b.__name__ in model.CLASS_BY_NAME and b.__module__ == "luqum.tree")
+        inst = model_witness(base)
+        inst.__class__ = cls
+        return inst
     if n == "NoneItem":
         return T.NONE_ITEM
     if n in ("Word", "Term"):
